@@ -339,3 +339,53 @@ def SCirc.domains (c : SCirc R) : List (Nat × Nat) :=
 
 end denote
 end Cirkit
+
+/-! ### argument checks of the operators (`cirkit/symbolic/functional.py`), in the order the code
+    performs them -/
+
+namespace Cirkit
+
+/-- error classes of the operators -/
+inductive OpErr where
+  /-- `StructuralPropertyError` -/
+  | structural
+  /-- `ValueError` -/
+  | value
+  /-- `NotImplementedError` -/
+  | notImplemented
+  deriving Repr, BEq, DecidableEq
+
+namespace SCirc
+variable {R : Type}
+
+/-- `integrate(sc, scope)`: smooth ∧ decomposable, then non-empty scope ⊆ circuit scope -/
+def integratePre (c : SCirc R) (zs : Scope) : Option OpErr :=
+  if !(c.isSmooth && c.isDecomposable) then some .structural
+  else if zs.isEmpty then some .value
+  else if !(Scope.subset zs c.scope) then some .value
+  else none
+
+/-- `differentiate(sc, order)`: smooth ∧ decomposable, then positive order -/
+def differentiatePre (c : SCirc R) (order : Int) : Option OpErr :=
+  if !(c.isSmooth && c.isDecomposable) then some .structural
+  else if order ≤ 0 then some .value
+  else none
+
+/-- `evidence(sc, obs)`: non-empty set of observed variables ⊆ circuit scope -/
+def evidencePre (c : SCirc R) (obsVars : Scope) : Option OpErr :=
+  if obsVars.isEmpty then some .value
+  else if !(Scope.subset obsVars c.scope) then some .value
+  else none
+
+/-- `multiply(sc1, sc2)`: same scope, then compatible -/
+def multiplyPre (c1 c2 : SCirc R) : Option OpErr :=
+  if c1.scope != c2.scope then some .notImplemented
+  else if !(c1.areCompatible c2) then some .structural
+  else none
+
+/-- `IntegrateQuery.__init__` / `SamplingQuery.__init__` -/
+def queryPre (c : SCirc R) : Option OpErr :=
+  if !(c.isSmooth && c.isDecomposable) then some .value else none
+
+end SCirc
+end Cirkit
